@@ -9,6 +9,8 @@
 //! In `exec` every step that has an `impl … for Result<Array<T>, ArrayError>` is run a second time on `Ok(array)` (the chained
 //! receiver): the twin's arrays are monitored, its class and shapes must equal the plain call's; the five getters are asked on both
 //! receivers for every returned array; option arguments are also passed in their other spellings (String / &str / enum).
+//! Part 2 (round 3): std-trait steps (`u.it_*`, `u.clone*`, `u.re_*`: monitor + native expectation), hidden-state chains + A-B-A re-runs, ranks up to 8 and
+//! long argument lists, huge arrays with a native shape oracle (`native_rec`) validated against the model on every modelled step of the run.
 use arrharness::*;
 use std::any::Any;
 use std::cell::{Cell, RefCell};
@@ -1426,6 +1428,8 @@ fn gen_part2(thorough: bool, seed: u64, out: &mut dyn FnMut(String)) {
             if order == 0 && prod(&g[0]) <= 300 {
                 for (oi, opt) in ["transpose|@{}|none", "flip|@{}|none", "atleast|@{}|3", "expand_dims|@{}|0", "squeeze|@{}|none", "roll|@{}|1|none", "roll|@{}|1|0", "flip|@{}|0", "map|@{}", "repeat|@{}|2|none", "cycle_take|@{}|5", "array_split|@{}|2|0", "u.it_filter|@{}|2|1", "u.clone|@{}", "sort|@{}|-1|none", "argmax|@{}|0|none", "count_nonzero|@{}|none|none", "delete|@{}|0|0"].iter().enumerate() {
                     let ty = tys[(gi + oi) % 6];
+                    // (the models of these five are quadratic: members of up to 600 elements)
+                    if ["transpose", "array_split", "sort", "argmax", "delete"].iter().any(|h| opt.starts_with(h)) && g.iter().any(|t| prod(t) > 600) { continue; }
                     let mut gg = G::new(0x41D + (gi * 100 + oi) as u64, "i64"); gg.r3 = false; gg.big = true;
                     for s in &g { gg.push(format!("new|{}|0|{}|#{}", prod(s), show_list(s), ty)); }
                     for _round in 0..2 { for k in 0..m { gg.push(opt.replace("{}", &k.to_string())); } }
@@ -1447,11 +1451,15 @@ fn gen_part2(thorough: bool, seed: u64, out: &mut dyn FnMut(String)) {
         let mut g = G::new(0x406E + hi as u64, "i64"); g.big = true;
         g.push(format!("new|{}|0|{}|#{}", n, show_list(s), ty));
         g.push(format!("new|{}|0|{}|#{}", n + 1, show_list(s), ty));
-        for st in [format!("reshape|@0|{}", show_list(&rev)), "ravel|@0".to_string(), format!("reshape|@3|{}", show_list(s)), "flip|@0|none".to_string(), "zeros_like|@0".to_string(), "expand_dims|@0|0,-1".to_string(),
+        for st in [format!("reshape|@0|{}", show_list(&rev)), "ravel|@0".to_string(), format!("reshape|@3|{}", show_list(s)), "flip|@0|none".to_string(), "map_e|@0".to_string(), "expand_dims|@0|0,-1".to_string(),
                    "squeeze|@7|none".to_string(), "map|@0".to_string(), "roll|@0|3|none".to_string(), "repeat|@0|2|none".to_string(), "filter_e|@0|3|1".to_string(), "append|@0|@0|none".to_string(),
-                   format!("reshape|@0|{}", n + 1), format!("reshape|@0|{},2", n / 2 + 1), format!("broadcast_to|@3|2,{}", n), "atleast|@0|6".to_string(), "count_nonzero|@0|none|none".to_string(),
+                   format!("reshape|@0|{}", n + 1), format!("reshape|@0|{},2", n / 2 + 1), "atleast|@0|6".to_string(), "count_nonzero|@0|none|none".to_string(),
                    "u.it_collect|@0".to_string(), "u.it_filter|@0|2|1".to_string(), "u.it_ref|@0".to_string(), "u.clone|@0".to_string(), "u.clone_from|@3|@0|direct".to_string(), "u.clone_from|@0|@3|direct".to_string(),
                    "u.it_take_while|@0|16385".to_string(), "u.it_chain|@0|@3".to_string()] { g.push(st); }
+        // (the model of broadcast_to is quadratic in the SOURCE size: a one-element source)
+        let one = g.push(format!("new|1|5|{}|#{}", show_list(&vec![1; r.min(3)]), ty));
+        g.push(format!("broadcast_to|@{}|{}", one, show_list(s)));
+        g.push(format!("u.it_filter_ref|@{}|3|2", one + 1));
         emit_chain(&g, out);
         // the quadratic-model operations: `u.` steps, native oracle
         let ity = ["i64", "i32", "f64"][hi % 3];
@@ -1605,12 +1613,12 @@ fn exec(_op: &str, args: &[&str], expected: &str) -> Option<Verdict> {
     let (recs, bad, natives) = run_chain(args);
     if recs.iter().any(|r| r == "?") { return None; }
     let observed = format!("ok {}", recs.join(";"));
-    // A-B-A (hidden state): every third chain, the previous chain is run again after this one and must answer as before
+    // A-B-A (hidden state): every fourth chain, the previous chain is run again after this one and must answer as before
     let aba = PREV_CHAIN.with(|p| {
         let mut p = p.borrow_mut();
         let mut finding = None;
         if let Some((line, old)) = p.as_ref() {
-            if ABA_TICK.with(|c| { c.set(c.get() + 1); c.get() % 3 == 0 }) && !line.split(' ').any(|st| st.starts_with("rand|")) {
+            if ABA_TICK.with(|c| { c.set(c.get() + 1); c.get() % 4 == 0 }) && !line.split(' ').any(|st| st.starts_with("rand|")) {
                 let steps: Vec<&str> = line.split(' ').collect();
                 let (again, bad_again, _) = run_chain(&steps);
                 ABA_RERUNS.fetch_add(1, std::sync::atomic::Ordering::Relaxed);
@@ -1618,7 +1626,8 @@ fn exec(_op: &str, args: &[&str], expected: &str) -> Option<Verdict> {
                 else if let Some((k, m)) = bad_again.first() { finding = Some(format!("A-B-A: the previous chain `{}` re-run after this chain: step {} {}", truncate(line, 300), k, m)); }
             }
         }
-        *p = Some((args.join(" "), recs.clone()));
+        // only a chain that was clean itself serves as the `A` of the next A-B-A (its own findings are reported on its own line)
+        *p = if bad.is_empty() { Some((args.join(" "), recs.clone())) } else { None };
         finding
     });
     // 1. the property itself: an inconsistent array was RETURNED by some step
@@ -1630,24 +1639,6 @@ fn exec(_op: &str, args: &[&str], expected: &str) -> Option<Verdict> {
         return Some(Verdict::Mismatch { observed, detail: format!("C01 monitor: step {} `{}` {}; shortest failing chain: C01.{} {}", k, args[*k], msg, label_of(args[*k]), chain) });
     }
     if let Some(f) = aba { return Some(Verdict::Mismatch { observed, detail: f }); }
-    // 1b. the native shape oracle: validated against the model on modelled steps, judging the `u.` steps on huge arrays
-    for k in 0..args.len() {
-        let Some(nr) = &natives[k] else { continue };
-        let name = label_of(args[k]);
-        if name.starts_with("u.") {
-            if recs[k] == "E" || recs[k] == "P" || recs[k] == "S" { continue; }
-            ORACLE_JUDGED.fetch_add(1, std::sync::atomic::Ordering::Relaxed);
-            if &recs[k] != nr { return Some(Verdict::Mismatch { observed, detail: format!("step {} `{}`: real crate {} , native shape oracle {} (oracle validated against the model on {} steps so far)", k, args[k], recs[k], nr, ORACLE_VALIDATED.load(std::sync::atomic::Ordering::Relaxed)) }); }
-        } else if exp[k].starts_with('A') || exp[k].starts_with('L') {
-            ORACLE_VALIDATED.fetch_add(1, std::sync::atomic::Ordering::Relaxed);
-            if exp[k] != nr { return Some(Verdict::Mismatch { observed, detail: format!("step {} `{}`: the harness-native shape oracle says {} but the model {} (the oracle is wrong: fix the harness)", k, args[k], nr, exp[k]) }); }
-        }
-    }
-    if _op == "oracle_validations" {
-        let (v, j, r) = (ORACLE_VALIDATED.load(std::sync::atomic::Ordering::Relaxed), ORACLE_JUDGED.load(std::sync::atomic::Ordering::Relaxed), ABA_RERUNS.load(std::sync::atomic::Ordering::Relaxed));
-        let text = format!("ok native-oracle-validated-against-model={v};judged-by-oracle={j};aba-reruns={r}");
-        return Some(if v == 0 || r == 0 { Verdict::Mismatch { observed: text, detail: "the native shape oracle was not validated against the model in this run".into() } } else { Verdict::Match(text) });
-    }
     // 2. the tie: modelled steps must agree with the store machine on outcome class and shape
     let mut open: Option<String> = None;
     for k in 0..args.len() {
@@ -1658,9 +1649,21 @@ fn exec(_op: &str, args: &[&str], expected: &str) -> Option<Verdict> {
             let want = args[k].rsplit('|').next().unwrap_or("");
             let now = match o { "E" | "P" | "S" | "N" => "=N".to_string(), x => format!("={}", x) };
             if want != now { open = Some(format!("step {} `{}`: unmodelled call answered {} now, {} when generated", k, args[k], now, want)); break; }
+            // the native shape oracle judges the `u.` forms of the operations whose model is quadratic (huge arrays)
+            if let Some(nr) = &natives[k] { if o.starts_with('A') || o.starts_with('L') {
+                ORACLE_JUDGED.fetch_add(1, std::sync::atomic::Ordering::Relaxed);
+                if o != nr { return Some(Verdict::Mismatch { observed, detail: format!("step {} `{}`: real crate {} , native shape oracle {} (oracle validated against the model on {} steps so far)", k, args[k], o, nr, ORACLE_VALIDATED.load(std::sync::atomic::Ordering::Relaxed)) }); }
+            } }
             continue;
         }
-        if e == o { continue; }
+        if e == o {
+            // ... and is itself validated against the model on every modelled step it speaks about
+            if let Some(nr) = &natives[k] { if e.starts_with('A') || e.starts_with('L') {
+                ORACLE_VALIDATED.fetch_add(1, std::sync::atomic::Ordering::Relaxed);
+                if e != nr { return Some(Verdict::Mismatch { observed, detail: format!("step {} `{}`: the harness-native shape oracle says {} but the model {} (the oracle is wrong: fix the harness)", k, args[k], nr, e) }); }
+            } }
+            continue;
+        }
         if o == "P" || e == "P" {
             // a panic / refusal class difference is C09's subject, not C01's: noted, comparison stops (stores diverge)
             open = Some(format!("step {} `{}`: real {} vs model {} (panic class, not judged by C01)", k, args[k], o, e)); break;
@@ -1674,6 +1677,11 @@ fn exec(_op: &str, args: &[&str], expected: &str) -> Option<Verdict> {
         let small = shrink(args, k);
         return Some(Verdict::Mismatch { observed, detail: format!("step {} `{}`: real crate {} , model {} ; minimal chain: C01.{} {}", k, args[k], o, e, name, small.join(" ")) });
     }
+    if _op == "oracle_validations" {
+        let (v, j, r) = (ORACLE_VALIDATED.load(std::sync::atomic::Ordering::Relaxed), ORACLE_JUDGED.load(std::sync::atomic::Ordering::Relaxed), ABA_RERUNS.load(std::sync::atomic::Ordering::Relaxed));
+        let text = format!("ok native-oracle-validated-against-model={v};judged-by-oracle={j};aba-reruns={r}");
+        return Some(if v == 0 || r == 0 { Verdict::Mismatch { observed: text, detail: "the native shape oracle was not validated against the model in this run".into() } } else { Verdict::Match(text) });
+    }
     Some(match open { Some(_) => Verdict::Open(observed), None => Verdict::Match(observed) })
 }
 
@@ -1685,5 +1693,5 @@ fn nontrivial(_op: &str, args: &[&str]) -> bool {
 
 fn main() {
     harness_main(Spec { prop: "C01", gen, exec, nontrivial, hang_secs: 30,
-        rule: "one case = one chain of public operations on earlier results. Enumerated: every operation of the inventory (modelled and `u.` = monitor-only) as a one-step chain on base arrays of every applicable element type and shapes incl. rank 0..4, unit axes, zero-length axes; the refusal stream (new/create/reshape/resize/broadcast_to with non-fitting counts); then seeded random chains (length 1..12 quick, 1..40 thorough) typed so that most steps apply. After EVERY step the real result (each member of a Vec/tuple) is checked: elements.len()==product(shape), len(), ndim(), is_empty() agree. Modelled steps are also compared with the store machine on outcome class and shape. Robustness streams: every step with a Result-receiver impl is also called on Ok(array) (monitored, same class and shapes required); len/ndim/is_empty/get_shape/get_elements are also asked through Ok(array) for every returned array; option arguments as String / &str / enum; i8 as third byte-sized type; base shapes with zero-length axes in every position and >= 32 elements; refusal stream around zero-length axes; one-step chains on shapes up to 4900 elements; random chains over zero-length / long axes. distinct = distinct chains; non-trivial = some step consumes the result of a step that consumed an earlier result" });
+        rule: "one case = one chain of public operations on earlier results. Enumerated: every operation of the inventory (modelled and `u.` = monitor-only) as a one-step chain on base arrays of every applicable element type and shapes incl. rank 0..4, unit axes, zero-length axes; the refusal stream (new/create/reshape/resize/broadcast_to with non-fitting counts); then seeded random chains (length 1..12 quick, 1..40 thorough) typed so that most steps apply. After EVERY step the real result (each member of a Vec/tuple) is checked: elements.len()==product(shape), len(), ndim(), is_empty() agree. Modelled steps are also compared with the store machine on outcome class and shape. Robustness streams: every step with a Result-receiver impl is also called on Ok(array) (monitored, same class and shapes required); len/ndim/is_empty/get_shape/get_elements are also asked through Ok(array) for every returned array; option arguments as String / &str / enum; i8 as third byte-sized type; base shapes with zero-length axes in every position and >= 32 elements; refusal stream around zero-length axes; one-step chains on shapes up to 4900 elements; random chains over zero-length / long axes. PART 2: std-trait steps (FromIterator from 29 kinds of exact / over-estimating / unbounded / empty iterators collected three ways, IntoIterator by value and by reference, clone, clone_from through every std path with targets of lower / equal / higher rank, Vec / slice / VecDeque / boxed-slice clone_from between split results, re-entrant closures) with the monitor and a native expectation, on ten element types x 18 base shapes and inside random chains; aliased operands; hidden state: colliding shape groups back to back in both orders through the count-checking constructors / reshapes and 18 further operations, and an A-B-A re-run of every fourth chain's predecessor; ranks 5..8, argument lists of 3..6 unsorted mixed-spelling entries, 65..130 parts, 5..8 arrays; huge arrays (16 384..196 611 elements): linear-model operations as modelled steps, quadratic-model operations as `u.` steps judged by a harness-native shape oracle that the same run validates against the model on every modelled step it speaks about (last case line reports the counts). distinct = distinct chains; non-trivial = some step consumes the result of a step that consumed an earlier result" });
 }
